@@ -165,7 +165,7 @@ def threaded_sample(ctx, n):
     import asyncio
     from streamz import Stream
     for i in range(n):
-        where = ("map", "async-sink", "sync-sink", "async-sink-after-rate-limit")[i % 4]
+        where = ("map", "async-sink", "sync-sink", "async-sink-after-rate-limit", "second-async-sink", "third-of-three-async-sinks")[i % 6]
         fail_on = i % 3
 
         def boom(x):
@@ -184,6 +184,18 @@ def threaded_sample(ctx, n):
         elif where == "sync-sink":
             src.sink(boom)
         elif where == "async-sink":
+            src.sink(aboom)
+        elif where == "second-async-sink":
+            # several awaitable consumers of one element: the failure of ANY of them is the failure of the emit
+            async def fine(x):
+                await asyncio.sleep(0.001)
+            src.sink(fine)
+            src.sink(aboom)
+        elif where == "third-of-three-async-sinks":
+            async def fine(x):
+                await asyncio.sleep(0.003)
+            src.sink(fine)
+            src.map(lambda x: x).sink(fine)
             src.sink(aboom)
         else:
             src.rate_limit(0.001).sink(aboom)
@@ -354,7 +366,7 @@ def flush(ctx, batch):
 def run(ctx):
     from .. import common, gen_graph
     ctx.audit()
-    threaded_sample(ctx, 12 if not ctx.thorough() else 60)
+    threaded_sample(ctx, 18 if not ctx.thorough() else 90)
     dataframe_fault_sample(ctx, 44 if not ctx.thorough() else 660)
     textfile_sink_sample(ctx, 40 if not ctx.thorough() else 600)
     rng = ctx.rng
@@ -394,7 +406,7 @@ def replay(ctx, data):
     ctx.audit()
     case = data["case"]
     if case.get("threaded"):
-        threaded_sample(ctx, 12)
+        threaded_sample(ctx, 18)
         ctx.coverage["rule"] = "replay: threaded sample"
         return
     if case.get("textfile_sink"):
